@@ -100,8 +100,7 @@ def run(ctx):
             ctx.disagreements.append({"suite": "zip-decompress", "request": ln[:200], "model": repr(mo)[:200], "impl": repr(res)[:200]})
     inflate_contract(ctx)
     end_to_end(ctx)
-    if ctx.tier == "thorough":
-        memory(ctx)
+    memory(ctx)
 
 
 def inflate_contract(ctx):
@@ -157,41 +156,53 @@ def end_to_end(ctx):
 
 
 _CHILD = r'''
-import sys, resource, zlib, base64, json
-sys.path.insert(0, "/verif/tools")
+import sys, resource, zlib, base64, json, tracemalloc
 from joserfc import jwe
 from joserfc.jwk import OctKey
 from cryptography.hazmat.primitives.ciphers.aead import AESGCM
+size, form = int(sys.argv[1]), sys.argv[2]
 key = b"k" * 16
-bomb = zlib.compress(b"\0" * (1 << 30), 9)[2:-4]
+c = zlib.compressobj(6)
+bomb = b"".join(c.compress(b"\0" * (1 << 20)) for _ in range(size >> 20)) + c.flush()     # zlib header 78 9C + adler32
+if form == "raw":
+    bomb = bomb[2:-4]
 b64 = lambda b: base64.urlsafe_b64encode(b).rstrip(b"=")
 h = b64(json.dumps({"alg": "dir", "enc": "A128GCM", "zip": "DEF"}, separators=(",", ":")).encode())
 out = AESGCM(key).encrypt(b"i" * 12, bomb, h)
 tok = h + b".." + b64(b"i" * 12) + b"." + b64(out[:-16]) + b"." + b64(out[-16:])
-del out
+del out, bomb, c
 before = resource.getrusage(resource.RUSAGE_SELF).ru_maxrss
+tracemalloc.start()
 try:
     jwe.decrypt_compact(tok, OctKey.import_key(key), algorithms=["dir", "A128GCM", "DEF"])
     res = "ok"
 except Exception as e:
     res = type(e).__name__
+peak = tracemalloc.get_traced_memory()[1]
+tracemalloc.stop()
 after = resource.getrusage(resource.RUSAGE_SELF).ru_maxrss
-print(json.dumps({"result": res, "rss_before_kb": before, "rss_after_kb": after}))
+print(json.dumps({"result": res, "rss_before_kb": before, "rss_after_kb": after, "python_peak_kb": peak // 1024, "expansion": size, "form": form,
+                  "token_octets": len(tok)}))
 '''
 
 
 def memory(ctx):
-    p = subprocess.run(["/venv/bin/python", "-c", _CHILD], stdout=subprocess.PIPE, stderr=subprocess.PIPE, text=True, timeout=600)
-    try:
-        info = json.loads(p.stdout.strip().splitlines()[-1])
-    except Exception:  # noqa: BLE001
-        ctx.extra["memory"] = f"child failed: {p.stderr[-300:]}"
-        return
-    ctx.extra["memory"] = info
-    ctx.count("memory-bomb", "1GiB", True, info["result"])
-    grown = info["rss_after_kb"] - info["rss_before_kb"]
-    if info["result"] != "ExceededSizeError" or grown > 200 * 1024:
-        ctx.report(f"1 GiB decompression bomb: result {info['result']}, RSS grew by {grown} KiB", info, "memory-bomb")
+    """Peak RSS of a child process decrypting a decompression bomb (raw DEFLATE and zlib-header form): the
+    refusal must come without the expansion having been materialised."""
+    size = (64 << 20) if ctx.tier == "quick" else (1 << 30)
+    for form in ("raw", "zlib-header"):
+        p = subprocess.run(["/venv/bin/python", "-c", _CHILD, str(size), form], stdout=subprocess.PIPE, stderr=subprocess.PIPE, text=True, timeout=900)
+        try:
+            info = json.loads(p.stdout.strip().splitlines()[-1])
+        except Exception:  # noqa: BLE001
+            ctx.extra[f"memory-{form}"] = f"child failed: {p.stderr[-300:]}"
+            continue
+        ctx.extra[f"memory-{form}"] = info
+        ctx.count("memory-bomb", (size, form), True, info["result"])
+        grown = max(info["rss_after_kb"] - info["rss_before_kb"], info["python_peak_kb"])
+        if info["result"] != "ExceededSizeError" or grown > 8 * 1024:
+            ctx.report(f"{size >> 20} MiB decompression bomb ({form}, {info['token_octets']} octet token): result {info['result']}, peak allocation {grown} KiB",
+                       info, f"memory-bomb:{form}")
 
 
 def search(ctx):
